@@ -179,8 +179,24 @@ func checkC06(c *h.Check) {
 			}
 		}
 	}
+	// Family E: struct providers with "*" whose fields carry tags that merely look like wire's: the field is
+	// still needed, so a missing source for it must be reported (and named), not skipped.
+	for ti, tag := range []string{`json:"-"`, `yaml:"-" json:"x"`, `wire:"x"`, `wire:"- "`, `xwire:"-"`, `json:"wire:\"-\""`} {
+		for prov := 0; prov < 2; prov++ {
+			b := ir.NewBuilder()
+			p := b.Root
+			db, lg := b.Leaf(p, "DB"), b.Leaf(p, "Logger")
+			srv := b.Agg(p, "Server", &ir.Field{Name: "DB", T: ir.Ptr(db)}, &ir.Field{Name: "Log", T: ir.Ptr(lg), Tag: tag})
+			items := []*ir.Item{ir.FuncItem(&ir.Func{Pkg: p, Name: "NewDB", Out: ir.Ptr(db)}), ir.StructItem(srv, "*")}
+			if prov == 1 {
+				items = append(items, ir.FuncItem(&ir.Func{Pkg: p, Name: "NewLogger", Out: ir.Ptr(lg)}))
+			}
+			inj := &ir.Injector{Name: "Init", Out: ir.Ptr(srv), Items: items}
+			addProg(fmt.Sprintf("C06/lookalike-tag/tag=%d/provided=%d", ti, prov), &ir.Program{Root: p, Injectors: []*ir.Injector{inj}})
+		}
+	}
 	results := c.JudgeAll(cases)
-	stdCoverage(c, cases, results, "C: twin packages (same package name, same identifiers, different import paths) with either twin unprovided; D: two injectors over shared set objects where only the first one's wrapper set adds the source (binding, value, function, field, struct, interface value) the second one lacks, both declaration orders; A: every accepted base program (all DAGs on <=4 nodes, thorough 5, with every node reachable; node kind/type shape/placement deviations) with each single Build/NewSet item left out; B: near-miss substitutions (T vs *T both ways, implementation without binding, named vs underlying both ways, other named type, alias which must stay accepted) at every node of four shapes. Oracle: model verdict == wire verdict; a rejection names the missing type (or the unprovided concrete type of a binding) and writes nothing; accepted programs are compiled, run and trace-checked. Distinct = distinct rendered source.")
+	stdCoverage(c, cases, results, "E: struct providers selecting \"*\" over fields whose tags only resemble wire:\"-\" (json:\"-\", wire:\"x\", ...), with and without a source for the field; C: twin packages (same package name, same identifiers, different import paths) with either twin unprovided; D: two injectors over shared set objects where only the first one's wrapper set adds the source (binding, value, function, field, struct, interface value) the second one lacks, both declaration orders; A: every accepted base program (all DAGs on <=4 nodes, thorough 5, with every node reachable; node kind/type shape/placement deviations) with each single Build/NewSet item left out; B: near-miss substitutions (T vs *T both ways, implementation without binding, named vs underlying both ways, other named type, alias which must stay accepted) at every node of four shapes. Oracle: model verdict == wire verdict; a rejection names the missing type (or the unprovided concrete type of a binding) and writes nothing; accepted programs are compiled, run and trace-checked. Distinct = distinct rendered source.")
 	c.Coverage["model_verdict_classes"] = kinds.summary()
 	sampleCase(c, cases, results)
 	if kinds["model:missing"] < 20 || kinds["model:accept"] < 5 {
